@@ -712,6 +712,17 @@ def _process_body(cx, stmts):
             out.append(st)
             continue
         st = _split_and(cx, st)
+        if isinstance(st, ast.While) and not st.orelse:
+            # `while h(): B`  ->  `while True: if not h(): break; B`   (h a helper: its body is expanded at the loop top)
+            probe = ast.If(test=st.test, body=[], orelse=[])
+            x = _first_call(probe)
+            if x is not None and _resolve_helper(cx, x[0]) is not None:
+                brk = ast.copy_location(ast.Break(), st)
+                guard = ast.copy_location(ast.If(test=ast.copy_location(ast.UnaryOp(op=ast.Not(), operand=st.test), st.test), body=[brk], orelse=[]), st)
+                guard._inl = brk._inl = True
+                st.test = ast.copy_location(ast.Constant(value=True), st.test)
+                st.body = [guard] + st.body
+                cx.changed = True
         is_try = isinstance(st, ast.Try) and (st.handlers or st.finalbody)
         for f in ("body", "orelse", "finalbody"):
             v = getattr(st, f, None)
